@@ -2,7 +2,10 @@
 from lib.verif import *
 
 THEOREMS = [
-    "C14_spend_hint_safe", "C14_spend_details_on_chain_partial",
+    "C14_spend_hint_safe", "C14_spend_details_on_chain", "C14_spend_exact",
+    "C14_reorg_before_respend",
+    "C14_conf_hint_safe", "C14_conf_exact", "C14_conf_exact_emit", "C14_reorg_before_reconf",
+    "C14_conf_exact_partial_reorg_refuted",
     "C14_spend_exact_cancel_refuted", "C14_conf_exact_cancel_refuted",
 ]
 MODULE = "LV.Notifier.Props"
@@ -374,7 +377,7 @@ def predicate(case, stats=None):
                 if stats is not None:
                     stats["conf_state_checks"] = stats.get("conf_state_checks", 0) + 1
             if r.exists and o["ch"][i] is not None and p and o["ch"][i] > p[0]:
-                fails.append(("C14_hint_safe", "conf hint %d above confirmation height %d of tx %d"
+                fails.append(("C14_conf_hint_safe", "conf hint %d above confirmation height %d of tx %d"
                               % (o["ch"][i], p[0], i), k))
         for j, r in enumerate(spend):
             p = pos_spend(j)
@@ -392,7 +395,7 @@ def predicate(case, stats=None):
                 if stats is not None:
                     stats["spend_state_checks"] = stats.get("spend_state_checks", 0) + 1
             if r.exists and o["sh"][j] is not None and p and o["sh"][j] > p[0]:
-                fails.append(("C14_hint_safe", "spend hint %d above spend height %d of outpoint %d"
+                fails.append(("C14_spend_hint_safe", "spend hint %d above spend height %d of outpoint %d"
                               % (o["sh"][j], p[0], j), k))
         prev_ch, prev_sh = o["ch"], o["sh"]
     if stats is not None:
@@ -400,6 +403,35 @@ def predicate(case, stats=None):
             key = "tainted:" + (r.tainted or "no")
             stats[key] = stats.get(key, 0) + 1
     return fails
+
+
+def partial_reorg_witness(case):
+    """Replay of C14_conf_exact_partial_reorg_refuted on the implementation trace: returns the
+    op index after which some client holds an un-negated Confirmed(h, b) while the tx at (h, b)
+    on the active chain has fewer than its NumConfirmations confirmations, or None."""
+    cur = len(case["pre"])
+    clients = {}
+    for k, o in enumerate(case["ops"]):
+        op, ret, ev = o["op"], o["ret"], o.get("ev") or {}
+        ok = ret == "ok" or isinstance(ret, list)
+        if op[0] == "reg" and ok:
+            clients[op[2]] = {"n": op[3], "status": None}
+        elif op[0] == "conn" and ok:
+            cur += 1
+        elif op[0] == "disc" and ok:
+            cur -= 1
+        for cid_s, rec in ev.items():
+            c = clients.get(int(cid_s))
+            if c is None:
+                continue
+            if rec.get("n"):
+                c["status"] = None
+            for h, b in rec.get("c", []):
+                c["status"] = (h, b)
+        for c in clients.values():
+            if c["status"] is not None and cur < c["status"][0] + c["n"] - 1 and cur >= c["status"][0]:
+                return k
+    return None
 
 
 # --------------------------------------------------------------------------
@@ -517,11 +549,16 @@ def run(ctx):
         "predicate": stats,
         "samples": [[o["op"] for o in rows[0]["ops"][:8]]],
         "correspondence_mismatches": len(bad),
+        "partial_reorg_witness_on_impl": [
+            {"case": c["ci"], "after_op": k} for c in rows if c["kind"] == "directed"
+            for k in [partial_reorg_witness(c)] if k is not None][:4],
     })
     ctx.assumptions += [
-        "NOT PROVED (tie + predicate only): C14_conf_exact, C14_reorg_before_reconf, conf half "
-        "of C14_hint_safe, and the event-stream half of C14_spend_exact / "
-        "C14_reorg_before_respend; see notes/C14.md",
+        "every clause of C14 is a theorem about the model (spend and confirmation side); the "
+        "persistent form of 'Confirmed => the tx still has >= N confirmations' is refuted "
+        "(C14_conf_exact_partial_reorg_refuted: no NegativeConf on a partial reorg, pinned by "
+        "lnd's TestTxNotifierReorgPartialConfirmation) and holds at emission time only "
+        "(C14_conf_exact_emit); see notes/C14.md",
         "requests are independent inside TxNotifier (per-request model)",
         "harness drains every client channel after every call, so the notifier's own "
         "channel-draining code paths (stale Confirmed/Updates/Reorg removal) are not observed",
